@@ -1,9 +1,10 @@
 import Gmx.Model.MarketInit
 import Gmx.Driver.Util
--- ENGINE c17 c17Engine stateless
+-- ENGINE c17 Tbl.c17Engine stateless
 /-! driver engine `c17` — answers "what does a freshly initialised market contain" from the
 tables generated out of the Rust source (C17). -/
-namespace Gmx.Drv
+namespace Gmx.Drv.Tbl
+open Gmx.Drv
 open Gmx.Gen.MarketConfig Gmx.Gen.Pools Gmx.MarketInit
 
 def c17Engine (args : List String) : String :=
@@ -37,4 +38,4 @@ def c17Engine (args : List String) : String :=
   | ["nkeys"] => s!"ok {Key.all.length} {Flag.all.length} {Kind.all.length}"
   | _ => "bad-op"
 
-end Gmx.Drv
+end Gmx.Drv.Tbl
